@@ -601,7 +601,7 @@ func TestCheck(t *testing.T) {
 		if thorough {
 			maxOps = 50
 		}
-		for i := 0; i < env.N(260, 8); i++ {
+		for i := 0; i < env.N(200, 8); i++ {
 			cases = append(cases, Case{Kind: "deleg", Deleg: genDeleg(r.Fork(), maxOps)})
 		}
 	}
